@@ -218,6 +218,8 @@ func (v *vpool) emitOp(op, s string, tx map[string]interface{}, err error, dropp
 	v.w.emit(map[string]interface{}{"e": "op", "op": op, "s": s, "tx": tx, "err": e, "dropped": dropped, "depth": depth, "proj": v.project()})
 }
 
+var vpFair bool // next pool: AccountSlots 1, GlobalSlots 9
+
 func newVPool(rng *rand.Rand, w *vwriter, roomy bool) *vpool {
 	v := &vpool{rng: rng, w: w, nkeys: 5, txs: map[common.Hash]*vptx{}, roomy: roomy,
 		signer: types.NewEIP155Signer(params.TestChainConfig.ChainId)}
@@ -232,6 +234,10 @@ func newVPool(rng *rand.Rand, w *vwriter, roomy bool) *vpool {
 		AccountSlots: 2, GlobalSlots: 5, AccountQueue: 3, GlobalQueue: 6, Lifetime: 3 * time.Hour}
 	if roomy {
 		cfg.AccountSlots, cfg.GlobalSlots, cfg.AccountQueue, cfg.GlobalQueue = 16, 4096, 64, 1024
+	}
+	if vpFair {
+		// the pool-wide limit can be met by equalising the senders alone (no second trimming phase)
+		cfg.AccountSlots, cfg.GlobalSlots, cfg.AccountQueue, cfg.GlobalQueue = 1, 9, 3, 8
 	}
 	v.pool = NewTxPool(cfg, params.TestChainConfig, v.chain)
 	w.emit(map[string]interface{}{"e": "cfg", "cfg": map[string]interface{}{"priceLimit": int(cfg.PriceLimit), "bump": int(cfg.PriceBump),
@@ -468,14 +474,43 @@ func (v *vpool) directedUneven() {
 	pend := v.pendingOf()
 	for s := 1; s < len(counts); s++ {
 		left := uint64(len(pend[vaddr(vkey(s))]))
-		t := v.mkTx(s, left+1, 9, 21000, 1)
+		for _, nonce := range []uint64{uint64(counts[s]), left + 1} { // the nonce after what was submitted / after a one-nonce hole
+			if nonce <= left {
+				continue
+			}
+			t := v.mkTx(s, nonce, 9, 21000, 1)
+			err := v.pool.AddRemote(t.tx)
+			v.emitOp("add", fmt.Sprintf("s%d", s), v.txJSON(t), err, nil, 0)
+		}
+	}
+}
+
+// equalisation only: two senders with 4 executable transactions and one with 2 against a pool-wide limit of 9; the trimmed
+// senders then submit the nonce after the one they lost
+func (v *vpool) directedEqualise() {
+	add := func(s, n int) {
+		var txs []*types.Transaction
+		for k := 0; k < n; k++ {
+			txs = append(txs, v.mkTx(s, uint64(k), 5, 21000, 1).tx)
+		}
+		v.pool.AddRemotes(txs)
+		v.emitOp("batch", "-", nil, nil, nil, 0)
+	}
+	a, c, b := 1+v.rng.Intn(2), 3, 4
+	add(a, 4)
+	add(c, 4)
+	add(b, 2)
+	for _, s := range []int{a, c} {
+		t := v.mkTx(s, 4, 7, 21000, 1)
 		err := v.pool.AddRemote(t.tx)
 		v.emitOp("add", fmt.Sprintf("s%d", s), v.txJSON(t), err, nil, 0)
 	}
 }
 
 func (v *vpool) history(nops int) {
-	if !v.roomy && v.rng.Intn(2) == 0 {
+	if vpFair {
+		v.directedEqualise()
+	} else if !v.roomy && v.rng.Intn(2) == 0 {
 		v.directedUneven()
 	}
 	for i := 0; i < nops; i++ {
@@ -556,6 +591,12 @@ loop:
 	v.pool.Stop()
 }
 
+func vpFairHistory(v *vpool, nops int) {
+	vpFair = true
+	v.history(nops)
+	vpFair = false
+}
+
 func TestVerifTxPool(t *testing.T) {
 	out := os.Getenv("VERIF_OUT")
 	if out == "" {
@@ -571,6 +612,12 @@ func TestVerifTxPool(t *testing.T) {
 	for h := 0; h < nh; h++ {
 		v := newVPool(rng, w, h%2 == 1)
 		v.history(nops)
+	}
+	for h := 0; h < 2; h++ {
+		vpFair = true
+		v := newVPool(rng, w, false)
+		vpFair = false
+		vpFairHistory(v, nops/2)
 	}
 	for c := 0; c < 2 && conc > 0; c++ {
 		v := newVPool(rng, w, c == 1)
